@@ -9,9 +9,11 @@ PROPS = {
                       "discharged for all inputs: Verus for the Montgomery cores of f64 and f62, Kani over the full "
                       "2^64 x 2^64 domain for the linear operations and equality.",
         "level_note": "Trusted: Verus/Z3, Kani/CBMC, vstd specs, assume_specification for u64::overflowing_add/sub. Under contract: "
-                      "f64/f62 add, sub, neg, double, mul, new, as_int, eq, normalize, mul_small, quadratic-extension mul / "
-                      "mul_base / frobenius, f128 add/sub/neg/new/eq. NOT under contract: exp, exp_vartime, inv (except "
-                      "zero -> zero for f62), cubic-extension formulas, f128 mul/inv, division (see evidence).",
+                      "f64/f62 add, sub, neg, double, mul, new, as_int, eq, normalize, mul_small, quadratic- and cubic-extension mul / "
+                      "mul_base (against the schoolbook product reduced by the documented polynomial), quadratic frobenius, "
+                      "f128 add/sub/neg/new/eq. NOT under contract: exp, exp_vartime, inv (except zero -> zero and "
+                      "termination on both zero representations for f62), cubic frobenius, extension inv, f128 mul/inv, "
+                      "division, square/cube defaults (see evidence).",
         "trusted": [],
         "assumptions": [],
         "explanation": "",
